@@ -21,8 +21,26 @@ fn split(pattern: &str, invert: bool, delimiter: SplitDelimiterBehavior) -> Box<
 
 const LLAMA3: &str = r"(?i:'s|'t|'re|'ve|'m|'ll|'d)|[^\r\n\p{L}\p{N}]?\p{L}+|\p{N}{1,3}| ?[^\s\p{L}\p{N}]+[\r\n]*|\s*[\r\n]+|\s+(?!\S)|\s+";
 
+/// Patterns that can match the empty string (at the start, between characters, at the end).
+/// Used by the `re:<index>:<i|n>:<I|R>` configurations (invert / not, Isolate / Remove).
+const EMPTY_MATCHING: &[&str] = &[r"\d*", r"\s*", r",?", r"(?=[A-Z])", r"x*", r"$", r"\b", r"(?=\d)"];
+/// Those of them that only ever match the empty string.
+const ZERO_WIDTH_ONLY: &[usize] = &[3, 5, 6, 7];
+
+fn parse_re_kind(kind: &str) -> Option<(usize, bool, SplitDelimiterBehavior)> {
+    let rest = kind.strip_prefix("re:")?;
+    let mut it = rest.split(':');
+    let idx: usize = it.next()?.parse().ok()?;
+    let invert = it.next()? == "i";
+    let delim = if it.next()? == "I" { SplitDelimiterBehavior::Isolate } else { SplitDelimiterBehavior::Remove };
+    Some((idx, invert, delim))
+}
+
 fn make_pretok(kind: &str) -> Option<Box<dyn PreTokenizer>> {
     use SplitDelimiterBehavior::*;
+    if let Some((idx, invert, delim)) = parse_re_kind(kind) {
+        return Some(split(EMPTY_MATCHING[idx], invert, delim));
+    }
     Some(match kind {
         "none" => return None,
         "gpt2" => Box::new(pre_tokenizers::Split::gpt2()),
@@ -47,6 +65,11 @@ fn make_pretok(kind: &str) -> Option<Box<dyn PreTokenizer>> {
 /// Pre-tokenizer configurations that are meant to partition their input: every byte of the
 /// (normalized) text must end up in exactly one chunk.  The others remove delimiters by design.
 fn split_expected(kind: &str) -> bool {
+    if let Some((idx, invert, delim)) = parse_re_kind(kind) {
+        // Isolate keeps matches and the text between them.  Remove keeps everything only when
+        // it removes the (always empty) matches of a zero-width pattern in non-inverted mode.
+        return delim == SplitDelimiterBehavior::Isolate || (!invert && ZERO_WIDTH_ONLY.contains(&idx));
+    }
     !matches!(kind, "ws-rem" | "word-rem" | "noop")
 }
 
@@ -329,11 +352,39 @@ fn generate_sweep(rng: &mut SplitMix64, out: &mut impl Write) {
     }
 }
 
+/// `Split` with patterns that can match the empty string x invert x {Isolate, Remove} (the two
+/// behaviours rten-text has), over texts in which the pattern matches empty at the start, between
+/// every pair of characters and at the end, next to non-empty matches.
+fn generate_empty_matching(rng: &mut SplitMix64, out: &mut impl Write) {
+    let texts = ["ab1", "a1b22c", "1", "", "ab", " a b ", "a,b,,c", "HelloWorldX", "xxaxbxx", "x", "12", "\u{e9}1\u{fc}",
+                 "A", "aB", "1a", "a1", "a b\t\n c", ",", "\u{1f600}1\u{1f600}", "ABC", "  ", "a\u{301}1,X x"];
+    for idx in 0..EMPTY_MATCHING.len() {
+        for inv in ["i", "n"] {
+            for delim in ["I", "R"] {
+                let kind = format!("re:{}:{}:{}", idx, inv, delim);
+                let merges = if (idx + inv.len()) % 2 == 0 {
+                    let mut corpus: Vec<Vec<u8>> = Vec::new();
+                    for t in texts.iter() {
+                        corpus.extend(pieces_for_training(&kind, t));
+                    }
+                    train_merges(rng, &corpus, 6, None)
+                } else {
+                    vec![]
+                };
+                let spec = Spec { merges, vocab: VocabSpec::None, eow: None, ignore: false, added: vec![] };
+                let t: Vec<String> = texts.iter().map(|s| hex_of_str(s)).collect();
+                writeln!(out, "{}|P={}|N=-|T={}|D=|G=emptymatch-{}{}", spec.format(), kind, t.join(";"), inv, delim).unwrap();
+            }
+        }
+    }
+}
+
 fn generate(seed: u64, n: usize, tier: &str, out: &mut impl Write) {
     writeln!(out, "TABLE").unwrap();
     let mut rng = SplitMix64(seed ^ 0xc27);
     let _ = tier;
     generate_sweep(&mut rng, out);
+    generate_empty_matching(&mut rng, out);
     let pkinds = ["gpt2", "gpt2", "gpt2", "none", "llama3", "bert", "digits", "digits1", "ws-iso", "word-iso", "char", "noop", "seq", "ws-rem", "word-rem"];
     let nkinds = ["-", "-", "-", "-", "-", "-", "-", "-", "-", "bertnoop", "nfc", "nfd", "nfkc", "nfkd", "lower", "bert", "repl", "repl-short", "seq"];
     for i in 0..n {
